@@ -409,3 +409,60 @@ func vStop(t Token, nested bool) bool {
 //@   ensures len(result) >= 1
 //@   loop 1 invariant fresh(parts) && fresh(thisPart)
 //@   loop 1 decreases len(tokens) - rangeindex
+
+// ---------------------------------------------------------------------------
+// serialize.go (C20): what text a code point may be written as, per context, so that
+// the tokenizer decodes it back to the same code point (CSS Syntax §4.3.4, §4.3.5,
+// §4.3.6, §4.3.7).
+
+func vHexDigit(c rune) bool {
+	return '0' <= c && c <= '9' || 'a' <= c && c <= 'f' || 'A' <= c && c <= 'F'
+}
+
+// `\` followed by c decodes to c: c is neither a hex digit nor a newline (nor NUL).
+func vBackslashOK(c rune) bool {
+	return 0 < c && c < 0x80 && !vHexDigit(c) && c != '\n' && c != '\r' && c != '\f'
+}
+
+// the fixed hexadecimal escapes the serializer uses
+func vHexEsc(mapped string, c rune) bool {
+	return (mapped == `\A ` && c == '\n') || (mapped == `\D ` && c == '\r') || (mapped == `\C ` && c == '\f') || (mapped == `\9 ` && c == '\t')
+}
+
+// name code points may be written raw inside a name
+func vRawName(c rune) bool {
+	return 'a' <= c && c <= 'z' || 'A' <= c && c <= 'Z' || '0' <= c && c <= '9' || c == '-' || c == '_' || c > 0x7F
+}
+
+// inside a double-quoted string everything but `"`, `\` and newlines may be written raw
+func vRawString(c rune) bool {
+	return c != '"' && c != '\\' && c != '\n' && c != '\r' && c != '\f'
+}
+
+// inside an unquoted url(): no quotes, parentheses, backslash, whitespace or non-printable
+func vRawURL(c rune) bool {
+	return c != '"' && c != '\'' && c != '(' && c != ')' && c != '\\' &&
+		c != ' ' && c != '\t' && c != '\n' && c != '\r' && c != '\f' &&
+		!(0 <= c && c <= 8) && c != 0x0B && !(0x0E <= c && c <= 0x1F) && c != 0x7F
+}
+
+//@ func serializeName
+//@   props C20
+//@   nopanic
+//@   requires forall(i, 0, len(value), value[i] != 0)
+//@   modifies nothing
+//@   call WriteString#1 assert (arg1 == string(c) && vRawName(c)) || (arg1 == "\\" + string(c) && vBackslashOK(c)) || vHexEsc(arg1, c)
+
+//@ func serializeStringValue
+//@   props C20
+//@   nopanic
+//@   requires forall(i, 0, len(value), value[i] != 0)
+//@   modifies nothing
+//@   call WriteString#1 assert (arg1 == string(c) && vRawString(c)) || (arg1 == "\\" + string(c) && vBackslashOK(c)) || vHexEsc(arg1, c)
+
+//@ func serializeURL
+//@   props C20
+//@   nopanic
+//@   requires forall(i, 0, len(value), value[i] != 0)
+//@   modifies nothing
+//@   call WriteString#1 assert (arg1 == string(c) && vRawURL(c)) || (arg1 == "\\" + string(c) && vBackslashOK(c)) || vHexEsc(arg1, c)
